@@ -4,8 +4,8 @@ CONSTANTS
   AeadC = 1
   Starts = "boundary"
   Emit = FALSE
-  SetupSMenu = {}
-  SetupRMenu = {}
+  SetupSMenu <- NoSetups
+  SetupRMenu <- NoSetups
   RawMenu = {}
   SeqMenu = {}
   PtMenu <- MC_PtMenu
@@ -13,8 +13,8 @@ CONSTANTS
   FormMenu = {"alloc", "detached"}
   DeliveryMenu <- MC_DeliveryMenu
   ExportMenu <- MC_ExportMenu
-  ShotSMenu = {}
-  ShotRMenu = {}
+  ShotSMenu <- NoSetups
+  ShotRMenu <- NoSetups
   MaxSeals = 3
   MaxOpens = 3
   MaxExports = 1
